@@ -6,7 +6,7 @@
 From Coq Require Import NArith List Bool.
 Import ListNotations.
 Require Import PV.Scopes.Syntax PV.Scopes.Analysis PV.Scopes.Paths PV.Scopes.Guards.
-Require Import PV.Proofs.ScopesMaps PV.Proofs.ScopesSound PV.Proofs.ScopesWitness.
+Require Import PV.Proofs.ScopesMaps PV.Proofs.ScopesSound PV.Proofs.ScopesUpper PV.Proofs.ScopesWitness.
 Open Scope N_scope.
 
 (* The lower bound at full strength: every definition (or the unbound state) that reaches a
@@ -14,12 +14,6 @@ Open Scope N_scope.
    classes, both replayed on the real code: known findings). *)
 Definition C09_strict_sub_reported_full_statement : Prop :=
   forall p u d, strict_reach p u d -> In d (reported p u).
-
-(* ... and the statement intended for the repaired tree: guarded by lower_ok only.  Proved below
-   for every program without break/continue; for programs with break/continue that satisfy
-   lower_ok it is decided by the differential check only (no counterexample found). *)
-Definition C09_strict_sub_reported_lower_ok_statement : Prop :=
-  forall p u d, lower_ok p = true -> strict_reach p u d -> In d (reported p u).
 
 Theorem C09_strict_sub_reported_refuted_dead_code_after_break :
   lower_ok w_dead = false /\ strict_reach w_dead 99 3 /\ ~ In 3 (reported w_dead 99).
@@ -31,40 +25,74 @@ Theorem C09_strict_sub_reported_refuted_jump_through_finally :
 Proof. exact (conj w_fin_guard (conj w_fin_reach w_fin_not_reported)). Qed.
 Print Assumptions C09_strict_sub_reported_refuted_jump_through_finally.
 
-(* For every function body built from assignments, uses, calls, pass, return, raise, if/else,
-   while/for with else, `while True`, suppressing and non-suppressing with, and
-   try/except/else/finally, nested to any depth: strict reaching definitions are reported. *)
+(* For every function body built from assignments, uses, calls, pass, return, raise,
+   break, continue, if/else, while/for with else, `while True`, suppressing and non-suppressing
+   with, and try/except/else/finally, nested to any depth, that satisfies the decidable guard
+   lower_ok (nothing follows a break/continue in its block; no break/continue leaves a try
+   statement that has a finally clause): strict reaching definitions are reported. *)
 Theorem C09_strict_sub_reported_partial : forall p u d,
-  has_jump_b p = false -> strict_reach p u d -> In d (reported p u).
-Proof. exact strict_sub_reported_nojump. Qed.
+  lower_ok p = true -> strict_reach p u d -> In d (reported p u).
+Proof. exact strict_sub_reported. Qed.
 Print Assumptions C09_strict_sub_reported_partial.
 
 (* ... in particular a use that can execute with the name unbound gets undefined_name or
    possibly_undefined_name *)
 Theorem C09_unbound_use_is_reported_partial : forall p u,
-  has_jump_b p = false -> strict_reach p u UN ->
+  lower_ok p = true -> strict_reach p u UN ->
   undefined_name p u = true \/ possibly_undefined p u = true.
-Proof. exact unbound_is_reported_nojump. Qed.
+Proof. exact unbound_is_reported. Qed.
 Print Assumptions C09_unbound_use_is_reported_partial.
 
-(* the guard is implied by, and strictly stronger than, lower_ok only through break/continue *)
-Theorem C09_partial_guard_within_lower_ok : forall p, has_jump_b p = false -> lower_ok p = true.
+(* every program without break/continue satisfies the guard *)
+Theorem C09_jump_free_within_lower_ok : forall p, has_jump_b p = false -> lower_ok p = true.
 Proof. exact nojump_lower_ok. Qed.
-Print Assumptions C09_partial_guard_within_lower_ok.
+Print Assumptions C09_jump_free_within_lower_ok.
 
-(* the analysis invariant behind the theorem, for every statement list and every entry state:
-   along every normally terminating strict path the abstract state stays live and covers the
-   concrete binding of every variable; every use reached records its binding *)
-Theorem C09_block_invariant : forall b st, has_jump_b b = false -> live (cur st) ->
+(* the analysis invariant behind the theorem, for every statement list and every live entry
+   state: every use reached records its binding; along every normally terminating strict path
+   the abstract state stays live and covers the concrete binding of every variable; every path
+   ending in break/continue is covered by a scope holding LEAVES_LOOP (the current dict or a
+   member of current_loop_scopes) *)
+Theorem C09_block_invariant : forall b st, lower_ok_b b = true -> live (cur st) ->
   (forall t v u d0, upath_b b t v u -> satv v d0 (cur st) -> In (u, applyv t v d0) (u2d (visit_b b st))) /\
   (forall t, path_b b ONorm t -> live (cur (visit_b b st)) /\
-     forall v d0, satv v d0 (cur st) -> satv v (applyv t v d0) (cur (visit_b b st))).
+     forall v d0, satv v d0 (cur st) -> satv v (applyv t v d0) (cur (visit_b b st))) /\
+  (forall o t, is_jump o -> path_b b o t ->
+     exists sc, In sc (exits (visit_b b st)) /\ ll sc = true /\ ls sc = false /\
+       forall v d0, satv v d0 (cur st) -> satv v (applyv t v d0) sc).
 Proof. exact block_invariant. Qed.
 Print Assumptions C09_block_invariant.
 
-(* the hypotheses are satisfiable by a non-trivial program (if, loop with else, try/except) *)
+(* the hypotheses are satisfiable by non-trivial programs *)
 Example C09_guard_inhabited :
   has_jump_b w_ok = false /\ strict_reach w_ok 8 2 /\
   reported w_ok 7 = [1; 0; 2; 3; 4] /\ possibly_undefined w_ok 7 = true /\ undefined_name w_ok 7 = false.
 Proof. exact w_ok_facts. Qed.
 Print Assumptions C09_guard_inhabited.
+
+Example C09_guard_inhabited_with_jumps :
+  lower_ok w_brk = true /\ has_jump_b w_brk = true /\ strict_reach w_brk 8 1 /\
+  reported w_brk 8 = [10; 1; 2] /\ reported w_brk 7 = [10; 1; 2].
+Proof. exact w_brk_facts. Qed.
+Print Assumptions C09_guard_inhabited_with_jumps.
+
+(* ---- upper bound.  liberal_reach (Scopes/Paths.v): every statement of a try/with body may raise
+   before and after it, a with statement may raise on entry, every loop may be left at its head
+   after any number of rounds without its else clause. *)
+
+(* the two specifications are nested: strict_reach <= liberal_reach, for every program *)
+Theorem C09_strict_sub_liberal : forall p u d, strict_reach p u d -> liberal_reach p u d.
+Proof. exact strict_sub_liberal. Qed.
+Print Assumptions C09_strict_sub_liberal.
+
+(* the intended statement (guard upper_ok); proved so far for stage 1 only, decided by the
+   differential check for the rest (loops, with, try/except) *)
+Definition C09_reported_sub_liberal_upper_ok_statement : Prop :=
+  forall p u d, upper_ok p = true -> In d (reported p u) -> liberal_reach p u d.
+
+(* stage 1: every program built from assignments, uses, calls, pass, return, raise and if/else
+   without dead code (upper1_ok = upper_ok && flat_b) *)
+Theorem C09_reported_sub_liberal_partial : forall p u d,
+  upper1_ok p = true -> In d (reported p u) -> liberal_reach p u d.
+Proof. exact reported_sub_liberal_flat. Qed.
+Print Assumptions C09_reported_sub_liberal_partial.
